@@ -236,8 +236,9 @@ func TestC14Masks(t *testing.T) {
 			run("part", mask*2+where, media(m))
 		}
 	}
-	// server control: every non-empty subset of its three attributes
-	for mask := 1; mask < 8; mask++ {
+	// server control: every subset of its three attributes, the empty one included (none of them
+	// is documented as required)
+	for mask := 0; mask < 8; mask++ {
 		m := maskMedia(0)
 		sc := &playlist.MediaServerControl{}
 		if mask&1 != 0 {
